@@ -3,6 +3,7 @@ import Vivid.Engine.VV
 import Vivid.Engine.Ring
 import Vivid.Engine.Mailbox
 import Vivid.Engine.View
+import Vivid.Engine.Codec
 
 open Vivid.Engine
 
@@ -10,7 +11,8 @@ def engines : List (String × Engine) := [
   ("vv", VVEngine.engine),
   ("ring", RingEngine.engine),
   ("mailbox", MailboxEngine.engine),
-  ("view", ViewEngine.engine)
+  ("view", ViewEngine.engine),
+  ("codec", CodecEngine.engine)
 ]
 
 partial def loop (h : IO.FS.Stream) (out : IO.FS.Stream) (e : Engine) (s : e.σ) : IO Unit := do
